@@ -24,7 +24,7 @@ type Config struct {
 	Retention  time.Duration `json:"retention"`
 	Multiplier float64       `json:"multiplier"`
 	MaxLatency time.Duration `json:"max_latency"`
-	FailFirst  int           `json:"fail_first"` // the first n batches fail every attempt (scripted burst)
+	FailFirst  int           `json:"fail_first"`        // the first n batches fail every attempt (scripted burst)
 	NoFail     bool          `json:"no_fail,omitempty"` // this sink never fails (dead queue)
 }
 
